@@ -320,7 +320,8 @@ impl<'a> Run<'a> {
         if let Some(t) = by_task {
           self.task_path.insert(t, path.clone());
         }
-        v.push(json!({"r": self.rel_r(p.id), "op": p.op, "path": path, "len": p.len}));
+        // (the byte length is not logged: the manifest carries a timestamp of varying width)
+        v.push(json!({"r": self.rel_r(p.id), "op": p.op, "path": path}));
       }
     }
     v
@@ -562,7 +563,8 @@ fn run_case(scn: usize, case: &Case, rng: &mut StdRng, out: &mut Out, max_commit
   close_page();
   // reload: a fresh init on what IndexedDB holds, then a search through the exported API
   let mut names = run.names;
-  let files: Vec<String> = idb::snapshot(&db, STORE).keys().map(|k| names.class(k)).collect();
+  let mut files: Vec<String> = idb::snapshot(&db, STORE).keys().map(|k| names.class(k)).collect();
+  files.sort();
   let (opened, searched, err, cont) = match open_page(&db) {
     Ok(p2) => {
       let r = match contents(&p2) {
@@ -575,12 +577,37 @@ fn run_case(scn: usize, case: &Case, rng: &mut StdRng, out: &mut Out, max_commit
     Err(e) => (false, false, e, Vec::new()),
   };
   let cont: Vec<Value> = cont.iter().map(|(id, ver)| json!({"id": id, "ver": ver})).collect();
-  let mut err = err;
+  let mut err = scrub_hex(&err);
   err.truncate(160);
   run.out.emit(json!({"ev": "reload", "opened": opened, "searched": searched, "err": err,
     "contents": cont, "files": files}));
   close_page();
   idb::delete_database(&db);
+}
+
+/// Random segment ids in error texts are projected away (runs of >= 16 hex digits -> "*").
+fn scrub_hex(s: &str) -> String {
+  let mut out = String::new();
+  let mut run = String::new();
+  for c in s.chars() {
+    if c.is_ascii_hexdigit() {
+      run.push(c);
+    } else {
+      if run.len() >= 16 {
+        out.push('*');
+      } else {
+        out.push_str(&run);
+      }
+      run.clear();
+      out.push(c);
+    }
+  }
+  if run.len() >= 16 {
+    out.push('*');
+  } else {
+    out.push_str(&run);
+  }
+  out
 }
 
 fn arg<'a>(args: &'a [String], k: &str) -> Option<&'a str> {
